@@ -58,7 +58,7 @@ DEEP = {p: ["CacheVerif.Proofs.DeepCache", "CacheVerif.Proofs.DeepCacheOf", "Cac
 
 # the concurrent cache model M5 is tied to the source text by: solo run of M5 = sequential step (ConcCacheSolo), and
 # steps of M5 = atomic actions the tracing interpreter records on the generated syntax (DeepTrace, both twins)
-TRACE = {p: ["CacheVerif.Proofs.ConcCacheSolo", "CacheVerif.Proofs.DeepTrace", "CacheVerif.Proofs.DeepTraceOf"] for p in ("C02", "C06", "C09", "C13")}
+TRACE = {p: ["CacheVerif.Proofs.ConcCacheSolo", "CacheVerif.Proofs.DeepTrace", "CacheVerif.Proofs.DeepTraceOf"] for p in ("C02", "C06", "C09", "C13", "C16")}
 
 PREMISE = {p: E("Load", "DoCompute", "Resize", "Range", "Lock") for p in ("C01", "C02", "C05", "C06", "C07", "C08", "C09", "C12", "C15")}
 
